@@ -278,7 +278,7 @@ fn corpus() -> &'static Vec<(String, Vec<u8>)> {
     static C: OnceLock<Vec<(String, Vec<u8>)>> = OnceLock::new();
     C.get_or_init(|| {
         let mut v = vec![];
-        let mut names: Vec<_> = std::fs::read_dir(crate::chain::REPO_TESTS).map(|rd| rd.flatten().map(|e| e.path()).collect()).unwrap_or_default();
+        let mut names: Vec<_> = std::fs::read_dir(crate::chain::repo_tests()).map(|rd| rd.flatten().map(|e| e.path()).collect()).unwrap_or_default();
         names.sort();
         for p in names {
             let ext = p.extension().and_then(|e| e.to_str()).unwrap_or("").to_string();
